@@ -955,13 +955,27 @@ def unroll_literal_for_loops(fn_node) -> int:
                     var = tgt.id
                 else:
                     continue
-                if not (isinstance(it, (ast.Tuple, ast.List)) and 1 <= len(it.elts) <= 8 and all(_same_object_each_time(e) for e in it.elts)):
+                if not (isinstance(it, (ast.Tuple, ast.List)) and 1 <= len(it.elts) <= 8):
                     continue
+                own_vars = False
+                if not all(_same_object_each_time(e) for e in it.elts):
+                    # elements that compute something (``x.copy()``) are evaluated once each, into the copy's own variable;
+                    # they must be read-only and must not read anything the body writes (they were all evaluated up front)
+                    from .aggregates import _read_only as _ro
+
+                    if not all(_ro(e) for e in it.elts):
+                        continue
+                    reads_ = {ast.unparse(n) for e in it.elts for n in ast.walk(e) if isinstance(n, (ast.Name, ast.Attribute))}
+                    writes_ = {ast.unparse(n) for s_ in st.body for n in ast.walk(s_) if isinstance(n, (ast.Name, ast.Attribute, ast.Subscript)) and not isinstance(getattr(n, "ctx", None), ast.Load)}
+                    writes_ |= {ast.unparse(n.value) for s_ in st.body for n in ast.walk(s_) if isinstance(n, ast.Subscript) and not isinstance(n.ctx, ast.Load)}
+                    if reads_ & writes_:
+                        continue
+                    own_vars = True
                 body_nodes = [n for s_ in st.body for n in ast.walk(s_)]
                 if len(st.body) > 6 or any(isinstance(n, (ast.Break, ast.Continue, ast.Return, ast.Lambda, ast.FunctionDef, ast.Yield)) for n in body_nodes):
                     continue
                 loop_vars = {var} | ({kvar} if kvar else set())
-                rebinds = any(isinstance(n, ast.Name) and n.id == var and not isinstance(n.ctx, ast.Load) for n in body_nodes)
+                rebinds = own_vars or any(isinstance(n, ast.Name) and n.id == var and not isinstance(n.ctx, ast.Load) for n in body_nodes)
                 if kvar and any(isinstance(n, ast.Name) and n.id == kvar and not isinstance(n.ctx, ast.Load) for n in body_nodes):
                     continue
                 inside = sum(1 for n in body_nodes if isinstance(n, ast.Name) and n.id in loop_vars) + len(loop_vars)
